@@ -561,23 +561,25 @@ class IrToWasmCompiler:
         # 32 -- 64
         "U32TOI64",
         "U32TOU64",
-        # 64 -- 32
-        "U64TOU32",
-        "I64TOU32",
         # 32 --- 32
         "I32TOI32",
         "U32TOU32",
-        # 32 --- 8
-        "I32TOI8",
+        # 8 --- 32
         "I8TOI32",
-        "I32TOU8",
         "U8TOI32",
-        # 32 --- 16
-        "I32TOI16",
+        # 16 --- 32
         "I16TOI32",
-        "I32TOU16",
         "U16TOI32",
     }
+
+    # Types smaller than their wasm type are kept sign extended (i8 and i16
+    # in a wasm i32) or zero extended (u8 and u16 in a wasm i32, u32 in a
+    # wasm i64). These instructions truncate a value to such a type:
+    to_i8 = ["i32.extend8_s"]
+    to_u8 = [("i32.const", 0xFF), "i32.and"]
+    to_i16 = ["i32.extend16_s"]
+    to_u16 = [("i32.const", 0xFFFF), "i32.and"]
+    to_u32 = [("i64.const", 0xFFFFFFFF), "i64.and"]
 
     cast_operators2 = {
         # float to int:
@@ -611,15 +613,22 @@ class IrToWasmCompiler:
         # Store u32 in i64 type, with the upper 32 bits zero:
         "I32TOU32": ["i64.extend_i32_u"],
         "U32TOI32": ["i32.wrap_i64"],
+        # 64 -- 32
+        "U64TOU32": to_u32,
+        "I64TOU32": to_u32,
         # 32 --- 8
-        "U32TOI8": ["i32.wrap_i64"],
+        "I32TOI8": to_i8,
+        "I32TOU8": to_u8,
+        "U32TOI8": ["i32.wrap_i64"] + to_i8,
         "I8TOU32": ["i64.extend_i32_u"],
-        "U32TOU8": ["i32.wrap_i64"],
+        "U32TOU8": ["i32.wrap_i64"] + to_u8,
         "U8TOU32": ["i64.extend_i32_u"],
         # 32 --- 16
-        "U32TOI16": ["i32.wrap_i64"],
+        "I32TOI16": to_i16,
+        "I32TOU16": to_u16,
+        "U32TOI16": ["i32.wrap_i64"] + to_i16,
         "I16TOU32": ["i64.extend_i32_u"],
-        "U32TOU16": ["i32.wrap_i64"],
+        "U32TOU16": ["i32.wrap_i64"] + to_u16,
         "U16TOU32": ["i64.extend_i32_u"],
     }
 
@@ -726,9 +735,11 @@ class IrToWasmCompiler:
             self.do_tree(tree[0])
         elif tree.name in self.cast_operators2:
             self.do_tree(tree[0])
-            opcodes = self.cast_operators2[tree.name]
-            for opcode in opcodes:
-                self.emit(opcode)
+            for instruction in self.cast_operators2[tree.name]:
+                if isinstance(instruction, tuple):
+                    self.emit(*instruction)
+                else:
+                    self.emit(instruction)
         elif tree.name == "CALL":
             function_name, argv, rv = tree.value
             for _, argument in argv:
